@@ -116,7 +116,7 @@ def run(ctx, repo):
             continue
         pw = pows[0]
         base_ok = isinstance(pw.left, ast.BinOp) and isinstance(pw.left.op, ast.Div) and ast.unparse(pw.left.left) == target \
-            and "'A'" in ast.unparse(pw.left.right) and PR['coeffs'] in ast.unparse(pw.left.right)
+            and "'A'" in ast.unparse(pw.left.right) and (PR['coeffs'] in ast.unparse(pw.left.right) or '_scoring_objects[' in ast.unparse(pw.left.right))
         exp_ok = isinstance(pw.right, ast.BinOp) and isinstance(pw.right.op, ast.Div) and isinstance(pw.right.left, ast.Constant) \
             and float(pw.right.left.value) == 1.0 and "'X'" in ast.unparse(pw.right.right)
         if base_ok and exp_ok:
@@ -144,6 +144,9 @@ def run(ctx, repo):
     # same coefficient object
     for fn in (score, perf):
         subs = [n for n in ast.walk(fn) if isinstance(n, ast.Assign) and isinstance(n.value, ast.Subscript) and ast.unparse(n.value.value) == '_scoring_objects']
+        if not subs:
+            # the row is not held in a local: the table itself is subscripted where the coefficients are used
+            subs = [n for n in ast.walk(fn) if isinstance(n, ast.Subscript) and isinstance(n.ctx, ast.Load) and ast.unparse(n.value) == '_scoring_objects']
         if not subs:
             ctx.finding('R2', '%s::%s::reads _scoring_objects[key]' % (ATH, fn.name), ATH, fn.lineno,
                         '%s() no longer reads its coefficients from the shared table' % fn.name)
